@@ -39,14 +39,40 @@ def main():
     try:
         rc = run_check(pid, tier, seed, args)
     except InfraError as exc:
-        print(f'INFRASTRUCTURE-ERROR property={pid}: {exc}')
-        rc = 2
-    except Exception:
-        traceback.print_exc()
-        print(f'INFRASTRUCTURE-ERROR property={pid}: unexpected exception in the checker')
-        rc = 2
+        rc = attributable_to_repo(pid, str(exc))
+        if rc == 2:
+            print(f'INFRASTRUCTURE-ERROR property={pid}: {exc}')
+    except Exception as exc:  # noqa: BLE001
+        text = traceback.format_exc()
+        rc = attributable_to_repo(pid, text + str(exc))
+        if rc == 2:
+            print(text)
+            print(f'INFRASTRUCTURE-ERROR property={pid}: unexpected exception in the checker')
     sys.stdout.flush()
     os._exit(rc)
+
+
+def attributable_to_repo(pid, text):
+    """A checker failure whose innermost reported Python frame lies inside the repository under test (e.g. a traceback a
+    worker process sent back) means the implementation raised under inputs that are fine on the unchanged tree: the
+    correspondence broke.  Reported as a violation without failing input (exit 1); everything else stays exit 2."""
+    import re
+    repo_root = os.path.realpath(os.environ.get('VERIF_REPO', '/repo'))
+    files = re.findall(r'File "([^"]+)", line (\d+)', text)
+    if not files or 'timeout after' in text:
+        return 2
+    last = os.path.realpath(files[-1][0])
+    if not last.startswith(repo_root + os.sep):
+        return 2
+    rep = {'property': pid, 'kind': 'proof-or-correspondence-broken',
+           'broken_obligations': [f'correspondence: the implementation raised inside {os.path.relpath(last, repo_root)}:'
+                                  f'{files[-1][1]} while the check was driving it'],
+           'detail': text[-3000:],
+           'note': 'the check could not finish because the real code raised; no failing input was isolated'}
+    path = common.write_replay(pid, rep)
+    print(f'  broken obligation: {rep["broken_obligations"][0]}')
+    print(f'VIOLATION property={pid} replay={path} no-failing-input-found')
+    return 1
 
 
 def run_check(pid, tier, seed, args):
